@@ -14,20 +14,29 @@
 (* Adv interleave freely with Fire.  Contract (C01, processing time):      *)
 (* every row is reported exactly once, in a result whose interval          *)
 (* contains the row's arrival time; no interval twice.                     *)
+(*   Manual   : TriggerWindow() called by the application: the same        *)
+(*              Trigger() body, not driven by a tick.  It ends the current  *)
+(*              interval early (rows arriving in the rest of it are behind  *)
+(*              the cursor and are discarded - "excused" below) and leaves   *)
+(*              the cursor one interval ahead of the clock; TickGuard (the  *)
+(*              code since repair bfbef07) makes the next tick skip instead *)
+(*              of firing the following interval before its end.            *)
 (***************************************************************************)
 EXTENDS Integers, Sequences, FiniteSets, TLC, Json
 
 CONSTANTS Size, MaxNow, MaxEv, Emit,
-          KeepFrom   \* "next": Trigger keeps rows with ts >= next start (the code); "all": keeps every row not emitted
+          KeepFrom,  \* "next": Trigger keeps rows with ts >= next start (the code); "all": keeps every row not emitted
+          MaxManual, \* number of TriggerWindow() calls explored (0: none)
+          TickGuard  \* TRUE (the code since the repair): a tick that finds the current interval not yet over is skipped
 
-VARIABLES now, init, slot, tb, nticks, pend, data, out, nadd, hist
-vars == <<now, init, slot, tb, nticks, pend, data, out, nadd, hist>>
+VARIABLES now, init, slot, tb, nticks, pend, data, out, nadd, hist, nman, manual, excused
+vars == <<now, init, slot, tb, nticks, pend, data, out, nadd, hist, nman, manual, excused>>
 
 SeqSet(s) == {s[i] : i \in 1..Len(s)}
 Ids(rows) == [i \in 1..Len(rows) |-> rows[i].id]
 
 Init == /\ now = 0 /\ init = FALSE /\ slot = -1 /\ tb = -1 /\ nticks = 0 /\ pend = 0
-        /\ data = <<>> /\ out = <<>> /\ nadd = 0 /\ hist = <<>>
+        /\ data = <<>> /\ out = <<>> /\ nadd = 0 /\ hist = <<>> /\ nman = 0 /\ manual = {} /\ excused = {}
 
 Add ==
   /\ nadd < MaxEv
@@ -36,7 +45,8 @@ Add ==
   /\ IF init THEN UNCHANGED <<init, slot, tb>>
      ELSE /\ init' = TRUE /\ slot' = (now \div Size) * Size /\ tb' = now
   /\ hist' = Append(hist, [a |-> "add", id |-> nadd + 1])
-  /\ UNCHANGED <<now, nticks, pend, out>>
+  /\ excused' = IF init /\ now < slot THEN excused \cup {<<nadd + 1, now>>} ELSE excused     \* behind the cursor: never reported
+  /\ UNCHANGED <<now, nticks, pend, out, nman, manual>>
 
 Adv ==
   /\ now < MaxNow
@@ -45,29 +55,44 @@ Adv ==
        THEN /\ nticks' = nticks + 1 /\ pend' = 1        \* pend already 1: the tick is dropped
        ELSE UNCHANGED <<nticks, pend>>
   /\ hist' = Append(hist, [a |-> "adv", id |-> 0])
-  /\ UNCHANGED <<init, slot, tb, data, out, nadd>>
+  /\ UNCHANGED <<init, slot, tb, data, out, nadd, nman, manual, excused>>
+
+\* Trigger(): emit the rows of the current interval, keep the rows from the next start on, move the cursor
+TriggerBody ==
+  LET next == slot + Size
+      res  == SelectSeq(data, LAMBDA r : slot <= r.ts /\ r.ts < next)
+      keep == IF KeepFrom = "next" THEN SelectSeq(data, LAMBDA r : r.ts >= next)
+              ELSE SelectSeq(data, LAMBDA r : ~(slot <= r.ts /\ r.ts < next))
+  IN /\ data' = keep
+     /\ out' = IF res = <<>> THEN out ELSE Append(out, [ws |-> slot, ids |-> Ids(res)])
+     /\ slot' = next
 
 Fire ==
   /\ pend = 1
   /\ pend' = 0
-  /\ LET next == slot + Size
-         res  == SelectSeq(data, LAMBDA r : slot <= r.ts /\ r.ts < next)
-         keep == IF KeepFrom = "next" THEN SelectSeq(data, LAMBDA r : r.ts >= next)
-                 ELSE SelectSeq(data, LAMBDA r : ~(slot <= r.ts /\ r.ts < next))
-     IN /\ data' = keep
-        /\ out' = IF res = <<>> THEN out ELSE Append(out, [ws |-> slot, ids |-> Ids(res)])
-        /\ slot' = next
+  /\ IF TickGuard /\ now < slot + Size
+       THEN UNCHANGED <<data, out, slot>>        \* the interval this tick was for has been reported by hand: skip
+       ELSE TriggerBody
   /\ hist' = Append(hist, [a |-> "fire", id |-> 0])
-  /\ UNCHANGED <<now, init, tb, nticks, nadd>>
+  /\ UNCHANGED <<now, init, tb, nticks, nadd, nman, manual, excused>>
 
-Next == Add \/ Adv \/ Fire
+Manual ==
+  /\ init /\ nman < MaxManual
+  /\ nman' = nman + 1 /\ manual' = manual \cup {slot}
+  /\ TriggerBody
+  /\ hist' = Append(hist, [a |-> "mtrig", id |-> 0])
+  /\ UNCHANGED <<now, init, tb, nticks, pend, nadd, excused>>
+
+Next == Add \/ Adv \/ Fire \/ Manual
 Spec == Init /\ [][Next]_vars
 
 \* ----------------------------------------------------------------- contract
 Delivered(id) == {i \in 1..Len(out) : id \in SeqSet(out[i].ids)}
 InData(id)    == \E k \in 1..Len(data) : data[k].id = id
 
-NoLoss      == \A id \in 1..nadd : InData(id) \/ Delivered(id) # {}
+NoLoss      == \A id \in 1..nadd : InData(id) \/ Delivered(id) # {} \/ \E e \in excused : e[1] = id
+\* a row is behind the cursor only in the rest of an interval that was ended by hand - never because the cursor ran ahead by itself
+ExcusedOnlyManual == \A e \in excused : \E ws \in manual : ws <= e[2] /\ e[2] < ws + Size
 ExactlyOnce == \A id \in 1..nadd : Cardinality(Delivered(id)) <= 1 /\ ~(InData(id) /\ Delivered(id) # {})
 NoRepeat    == \A i, j \in 1..Len(out) : i # j => out[i].ws # out[j].ws
 OnGrid      == \A i \in 1..Len(out) : out[i].ws % Size = 0
@@ -78,5 +103,5 @@ SlotBehind  == init => slot <= now            \* the cursor never runs ahead of 
 \* ------------------------------------------------------------ scenarios ---
 Complete == nadd = MaxEv /\ now = MaxNow /\ pend = 0
 EmitScenario == (Emit /\ Complete) => PrintT(<<"SCEN", ToJson(hist)>>)
-View == <<now, init, slot, tb, nticks, pend, data, out, nadd>>
+View == <<now, init, slot, tb, nticks, pend, data, out, nadd, nman, manual, excused>>
 =============================================================================
